@@ -338,12 +338,12 @@ func sameComponents(short, long *Term, names ...string) (bool, string) {
 
 // unconditionalOnSuccess: the call's block dominates every success return of fn.
 func unconditionalOnSuccess(fn *ssa.Function, in ssa.Instruction, o *Origin) bool {
-	rets := successReturns(fn)
-	if len(rets) == 0 {
+	exits := successExits(fn)
+	if len(exits) == 0 {
 		return false
 	}
-	for _, r := range rets {
-		if !o.dominates(in, r) {
+	for _, e := range exits {
+		if !o.domExit(in, e) {
 			return false
 		}
 	}
